@@ -40,7 +40,7 @@ def main():
                 recheck(sid)
         return
     sid, wt, prop = sys.argv[1:4]
-    checks = [prop.lower()] + [c for c in sys.argv[4:] if c.lower() != prop.lower()]
+    checks = [prop.lower()] + [c.lower() for c in sys.argv[4:] if c.lower() != prop.lower()]
     dst = os.path.join(VERIF, "seeded", sid)
     os.makedirs(dst, exist_ok=True)
     for f in ("patch.diff", "demo.py", "notes.md"):
@@ -90,6 +90,8 @@ def run_checks(sid, dst, checks, meta):
             rc, out = sh("%s %s -m checks.%s --tier quick --no-evidence" % (env, PY, c), cwd=VERIF,
                          timeout=3000)
             sigs = re.findall(r"^violation ([^\n]*)", out, flags=re.M)
+            if rc == 1 and not re.search(r"^VIOLATION property=", out, flags=re.M):
+                rc = 2        # died without reporting: a harness failure, not a catch
             meta["checks"][c.upper()] = {
                 "exit": rc, "caught": rc == 1, "wall_s": round(time.time() - t0, 1),
                 "violations": [s[:300] for s in sigs[:4]],
